@@ -85,6 +85,47 @@ class C16(core.Check):
                 if len(d) > 60000:      # the same delivered in two reads: the not-found branch of the line search
                     cs.append(("srv", kind, ((d, (len(d) - 3,), False),)))
             cs.append(("srv", kind, ((good + good, (10,), True), (b"GET / HTTP/1.0\r\n\r\n", (), False), (NEAR[0], (3,), True))))
+        big = b"GET /big HTTP/1.1\r\n\r\n"
+        for kind in ("wsgi", "bare"):      # send capacity: responses stay queued across passes; then a malformed follow-up; socket faults
+            for cap in (1, 7, 50, 0):
+                for bad in (NEAR[0], b"BAD / HTTP/1.1\r\n\r\n", b"GET / HTTP/1.0\r\n\r\n", b"\r\n"):
+                    cs.append(("srvc", kind, ((good + bad, (len(good),), False, cap, None), (good, (), False, None, None))))
+                    cs.append(("srvc", kind, ((big + bad, (len(big),), False, cap, None), (good, (), False, 3, None))))
+            for fault in (("recv", 1), ("recv", 3), ("send", 1), ("send", 2), ("send", 6)):
+                cs.append(("srvc", kind, ((good + b"GET / HTTP/1.0\r\n\r\n", (len(good),), False, 5, fault), (good, (), False, None, None))))
+                cs.append(("srvc", kind, ((big + good, (len(big),), False, 40, fault), (good + good, (20,), False, None, None))))
+        # repetition as a size dimension: k x interim response, header line, chunk, empty line, event, pipelined request
+        for k in (1, 2, 10, 1000, 5000):
+            cs.append(("cli", b"HTTP/1.1 100 Continue\r\n\r\n" * k + b"HTTP/1.1 200 OK\r\nContent-Length: 2\r\n\r\nhi", () if k > 10 else (30,), True, "http"))
+            cs.append(("cli", b"HTTP/1.1 100 Continue\r\nX: 1\r\n\r\n" * k, (), True, "http"))
+            cs.append(("cli", b"HTTP/1.1 200 OK\r\n" + b"".join(b"H%d: v\r\n" % i for i in range(k)) + b"Content-Length: 0\r\n\r\n", (), True, "http"))
+            cs.append(("cli", b"HTTP/1.1 200 OK\r\n" + b"Same: v\r\n" * k + b"Content-Length: 0\r\n\r\n", (), True, "http"))
+            cs.append(("cli", b"HTTP/1.1 200 OK\r\nTransfer-Encoding: chunked\r\n\r\n" + b"1\r\na\r\n" * k + b"0\r\n" + b"T: v\r\n" * min(k, 50) + b"\r\n", (), True, "http"))
+            cs.append(("cli", b"\r\n" * k + b"HTTP/1.1 200 OK\r\nContent-Length: 0\r\n\r\n", (), True, "http"))
+            cs.append(("cli", b"HTTP/1.1 200 OK\r\nContent-Type: text/event-stream\r\n\r\n" + b"data: x\n\n" * k + b"\n" * k, (), True, "http"))
+            cs.append(("clir", b"HTTP/1.1 200 OK\r\nContent-Type: text/event-stream\r\n\r\n" + b"id: 1\ndata: x\n\n" * k, ()))
+            for kind in ("wsgi", "bare"):
+                cs.append(("srv", kind, ((good * min(k, 1000), (), False), (good, (), False))))
+                cs.append(("srv", kind, ((b"\r\n" * k + good, (), False), (good, (), False))))
+                cs.append(("srv", kind, ((b"POST / HTTP/1.1\r\nTransfer-Encoding: chunked\r\n\r\n" + b"1\r\na\r\n" * k + b"0\r\n\r\n", (), False), (good, (), False))))
+                cs.append(("srv", kind, ((b"GET / HTTP/1.1\r\n" + b"Same: v\r\n" * k + b"\r\n", (), False), (good, (), False))))
+        # numeric tokens beyond the int() digit limit at every place a number is read
+        for nd in (4300, 4301):
+            D = b"1" * nd
+            for d in (b"GET / HTTP/1." + D + b"\r\n\r\n", b"GET / HTTP/" + D + b".1\r\n\r\n", b"POST / HTTP/1.1\r\nContent-Length: " + D + b"\r\n\r\n",
+                      b"POST / HTTP/1.1\r\nTransfer-Encoding: chunked\r\n\r\n" + D + b"\r\n", b"GET http://h:" + D + b"/ HTTP/1.1\r\n\r\n",
+                      b"GET / HTTP/1.1\r\nHost: h:" + D + b"\r\n\r\n"):
+                for kind in ("wsgi", "bare"):
+                    cs.append(("srv", kind, ((d, (), False), (good, (), False))))
+            for d in (b"HTTP/1." + D + b" 200 OK\r\nContent-Length: 0\r\n\r\n", b"HTTP/1.1 " + D + b" OK\r\n\r\n", b"HTTP/1.1 200 OK\r\nContent-Length: " + D + b"\r\n\r\n",
+                      b"HTTP/1.1 200 OK\r\nTransfer-Encoding: chunked\r\n\r\n" + D + b"\r\n", b"HTTP/1.1 302 F\r\nLocation: http://127.0.0.1:" + D + b"/\r\nContent-Length: 0\r\n\r\n",
+                      b"HTTP/1.1 200 OK\r\nContent-Type: text/event-stream\r\n\r\nretry: " + D + b"\nid: 1\ndata: x\n\n"):
+                cs.append(("cli", d, (), True, "http"))
+            cs.append(("clir", b"HTTP/1.1 200 OK\r\nContent-Type: text/event-stream\r\n\r\nretry: " + D + b"\nid: 1\ndata: x\n\n", ()))
+        # event data tried as JSON (dictable): deep nesting
+        sse0 = b"HTTP/1.1 200 OK\r\nContent-Type: text/event-stream\r\n\r\n"
+        for data in (b"[" * 20000, b"{\"a\":" * 4000, b"{\"a\": 1}", b"not json", b"\xff"):
+            cs.append(("cli", sse0 + b"data: " + data + b"\n\n", (), True, "http+dictable"))
         for kind in ("wsgi", "bare"):      # the same server object, a second round from the same peer addresses
             r1 = ((good, (), False), (NEAR[0], (), False), (b"POST /p HTTP/1.1\r\nContent-Length: 9\r\n\r\nabc", (), False))
             r2 = ((b"GET /2 HTTP/1.1\r\n\r\n", (), False), (good + good, (30,), False), (b"GET /3 HTTP/1.0\r\n\r\n", (), False))
@@ -147,7 +188,18 @@ class C16(core.Check):
     def generate(self, rng, n, tier):
         for _ in range(n):
             k = rng.random()
-            if k < 0.06:
+            if k < 0.12 and k >= 0.06:      # send capacity and socket faults, pipelines with malformed follow-ups
+                conns = []
+                for _ in range(rng.choice([1, 2, 2, 3])):
+                    d, cuts, cl = self._conn(rng)
+                    if rng.random() < 0.5:
+                        d = rng.choice([b"GET /big HTTP/1.1\r\n\r\n", hp.gen_request(rng)]) + d
+                        cuts = hp.cuts_for(rng, d, rng.choice(["two", "uniform", "term"])) if len(d) < 3000 else ()
+                    cap = rng.choice([None, 0, 1, 3, 7, 20, 50, 200])
+                    fault = None if rng.random() < 0.6 else (rng.choice(["recv", "send"]), rng.randrange(1, 9))
+                    conns.append((d, cuts, cl, cap, fault))
+                yield ("srvc", rng.choice(["wsgi", "bare"]), tuple(conns))
+            elif k < 0.06:
                 yield ("srv2", rng.choice(["wsgi", "bare"]), tuple(self._conn(rng) for _ in range(rng.choice([1, 2, 3]))),
                        tuple(self._conn(rng) for _ in range(rng.choice([1, 2, 3]))))
             elif k < 0.5:
@@ -202,7 +254,7 @@ class C16(core.Check):
             elif second[1] != fresh[1]:
                 bad.append("reused-server-differs-from-fresh")      # state of the first round leaked into the second
             return bad
-        if k == "srv":
+        if k in ("srv", "srvc"):
             multi, alone = obs
             if multi[0] is not None:
                 bad.append("exception-escaped-server-service")
@@ -225,7 +277,7 @@ class C16(core.Check):
 
     @hp.safe(True)
     def nontrivial(self, case, obs):
-        if case[0] == "srv2":
+        if case[0] in ("srv2", "srvc"):
             return True
         if case[0] == "srv":
             return any(len(d) > 0 for d, _, _ in case[2])
@@ -233,8 +285,14 @@ class C16(core.Check):
 
     @hp.safe(list)
     def features(self, case, obs):
-        f = [case[0] + (":" + case[1] if case[0] in ("srv", "srv2") else "")]
+        f = [case[0] + (":" + case[1] if case[0] in ("srv", "srv2", "srvc") else "")]
         if case[0] == "srv2":
+            return f
+        if case[0] == "srvc":
+            for c in case[2]:
+                f.append("srvc:cap:" + ("none" if c[3] is None else "0" if c[3] == 0 else "small" if c[3] < 10 else "large"))
+                if c[4]:
+                    f.append("srvc:fault:" + c[4][0])
             return f
         if case[0] == "srv":
             multi = obs[0]
